@@ -314,6 +314,8 @@ def run(ctx):
     ctx.attempt(r14, ctx, rep)
     rep.rule('R1.7', 'an iterator that re-seeds a random generator so that every pass yields the same rows does so on every path before its first yield (seed 0 / \'\' are seeds too)')
     ctx.attempt(r17, ctx, rep)
+    rep.rule('R1.8', 'an iterator served from the chunk files of a sort keeps them alive itself: it holds the owner objects in its own frame, so another iterator (or clearcache) that replaces the view\'s cache cannot make the files vanish under it (C18 R18.3 / R18.4 imported for SortView)')
+    ctx.attempt(r18, ctx, rep)
     ctx.attempt(r15, ctx, rep)
     # R1.6: a pass served from the sort caches replays the pass that filled them: same merge, same key function, same
     # direction (the C05 R5.2 obligations of SortView)
@@ -1015,3 +1017,21 @@ def r15(ctx, rep):
                 rep.held('R1.5', fn, 'open(read) -> %s' % ', '.join(sorted({norm(v)[:40] for v, _ in dom.delivered})),
                          'every stream handed out in a read mode is created by the call', fn.node)
     ctx.floor('source_open_methods', n, 10)
+
+
+# ------------------------------------------------------------------------ R1.8
+def r18(ctx, rep):
+    """What one iterator yields must not depend on what another iterator of the same view does.  The chunk files of a
+    spilled sort are deleted when their last owner object goes away; the view's cache attribute is re-bound by every
+    uncached pass and by clearcache(), so a pending cache-served iterator that holds only the *names* loses its files."""
+    from . import c18
+    from ..report import Report
+    sub = Report('C18', ctx.tier, ctx.root)
+    sv = ctx.project.need_class('petl.transform.sorts:SortView')
+    c18._chunk_class(ctx, sub, sv)
+    n = 0
+    for o in sub.obligations:
+        n += 1
+        rep.add('R1.8', (o.module, o.qualname), '%s: %s' % (o.rule, o.construct), o.status, o.message, o.lineno, o.detail)
+    if n < 2:
+        raise AnalysisError('anchor vanished: ownership obligations of the chunk readers (%d)' % n)
